@@ -13,6 +13,7 @@ use std::sync::atomic::{AtomicBool, Ordering as StdOrdering};
 use std::sync::Arc;
 
 pub static LOG_CLOCK: AtomicBool = AtomicBool::new(false);
+pub static LOG_SLEN: AtomicBool = AtomicBool::new(false);
 
 /// Shuttle runs every task on one OS thread, cooperatively; plain interior mutability is enough
 /// for the interpreter's own bookkeeping (and cannot introduce scheduling points of its own).
@@ -123,7 +124,10 @@ fn me() -> usize {
 }
 
 fn log_op(ix: usize, pc: usize, k: &str, r: i64) {
-    if LOG_CLOCK.load(StdOrdering::Relaxed) {
+    if LOG_SLEN.load(StdOrdering::Relaxed) {
+        let sl = shuttle_engine::runtime::execution::CurrentSchedule::len();
+        log(json!({"e":"op","t":me(),"c":ix,"pc":pc,"k":k,"r":r,"sl":sl}));
+    } else if LOG_CLOCK.load(StdOrdering::Relaxed) {
         let c = shuttle::current::clock();
         let clk: Vec<u32> = c.iter().copied().collect();
         log(json!({"e":"op","t":me(),"c":ix,"pc":pc,"k":k,"r":r,"clk":clk}));
@@ -203,6 +207,10 @@ fn exec_op<'a>(warc: &Arc<World>, w: &'a World, _ix: usize, op: &Op, guards: &mu
             }
         },
         "panic" => panic!("boom-{}", op.v),
+        "rand" => {
+            use shuttle::rand::RngCore;
+            (shuttle::rand::thread_rng().next_u64() % 4) as i64
+        }
         // ---- Mutex
         "lock" => match w.mutexes[o].lock() {
             Ok(g) => {
